@@ -219,13 +219,13 @@ Proof.
 Qed.
 
 Lemma In_registrations c l cm :
-  g_reg_topics c = true -> g_reg_chans c = true -> g_skip_exiting c = true ->
+  g_reg_topics c = true -> g_reg_chans c = true -> g_skip_exiting c = true -> g_bare_no_live c = true ->
   (In cm (registrations c l) <->
    exists i, i < length l /\ is_topic (getO l i) = true /\ o_map (getO l i) = true /\ o_exit (getO l i) = false /\
      ((reg_chans c l i = [] /\ cm = CReg (KT (o_t (getO l i)))) \/
       (exists j, In j (reg_chans c l i) /\ cm = CReg (KC (o_t (getO l j)) (o_c (getO l j)))))).
 Proof.
-  intros G1 G2 G3. unfold registrations. rewrite in_flat_map. rewrite G1, G2, G3. cbn [andb]. split.
+  intros G1 G2 G3 G4. unfold registrations. rewrite in_flat_map. rewrite G1, G2, G3, G4. cbn [andb orb]. split.
   - intros (i & Hi & H). apply In_ids in Hi. exists i. split; auto.
     destruct (is_topic (getO l i)); cbn [andb] in H; [|destruct H].
     destruct (o_map (getO l i)); cbn [andb] in H; [|destruct H].
@@ -247,17 +247,17 @@ Proof.
   unfold registrations. rewrite in_flat_map. intros (i & _ & H).
   destruct (is_topic (getO l i) && o_map (getO l i) && negb (g_skip_exiting c && o_exit (getO l i))); [|destruct H].
   destruct (reg_chans c l i) as [|j0 js].
-  - destruct (g_reg_topics c); [|destruct H]. destruct H as [<-|[]]. eauto.
+  - destruct (g_reg_topics c && _); [|destruct H]. destruct H as [<-|[]]. eauto.
   - destruct (g_reg_chans c); [|destruct H]. apply in_map_iff in H. destruct H as (j & <- & _). eauto.
 Qed.
 
 (* connectCallback registers exactly the live objects: J holds for the fresh connection
    whatever is pending *)
 Lemma cb_J c l b :
-  g_reg_topics c = true -> g_reg_chans c = true -> g_skip_exiting c = true ->
+  g_reg_topics c = true -> g_reg_chans c = true -> g_skip_exiting c = true -> g_bare_no_live c = true ->
   WF l b -> J l b (apply_cmds (registrations c l) []).
 Proof.
-  intros G1 G2 G3 W. pose proof W as (W1 & W2 & W3 & W4 & W5 & W6).
+  intros G1 G2 G3 G4 W. pose proof W as (W1 & W2 & W3 & W4 & W5 & W6).
   assert (R : forall x, In x (apply_cmds (registrations c l) []) <->
                         exists k, In (CReg k) (registrations c l) /\ In x (reg_keys k)).
   { intros x. rewrite apply_cmds_regs by apply registrations_are_regs. cbn. tauto. }
@@ -455,7 +455,7 @@ Lemma link_cmd c l b b' cm k :
   let k' := fst (command c (registrations c l) cm k) in
   LK k' /\ (l_alive k' = true -> J l b' (l_regs k')).
 Proof.
-  intros (G1 & G2 & G3 & G4 & G5 & _) W C L HJ T k'.
+  intros (G1 & G2 & G3 & G4 & G5 & G6 & _) W C L HJ T k'.
   assert (LKs : l_alive k = true -> k_state k = st_connected) by (intros A; apply L; auto).
   pose proof (command_alive c (registrations c l) cm k G1 G2 LKs) as CA. cbn in CA. fold k' in CA.
   pose proof (command_frame c (registrations c l) cm k) as (F1 & _). fold k' in F1.
@@ -471,7 +471,7 @@ Proof. intros S (W1 & W). split; auto. Qed.
 Lemma loop_step_Inv Q c s o s' :
   good_cfg c -> Inv_on Q s -> hazard s o = false -> loop_step c s o = Run s' -> Inv_on Q s'.
 Proof.
-  intros G (W & K & HL) Hz X. pose proof G as (G1 & G2 & G3 & G4 & G5 & G6 & G7 & _).
+  intros G (W & K & HL) Hz X. pose proof G as (G1 & G2 & G3 & G4 & G5 & G6 & G7 & G8 & G9 & _).
   destruct o; cbn [loop_step] in X; try (inversion X; subst; split; auto; fail).
   - (* Deliver *)
     cbn [hazard] in Hz.
